@@ -1609,6 +1609,20 @@ impl<'a> Walker<'a> {
                 return None;
             }
         }
+        // std's allocation constructors panic ("capacity overflow") when the requested capacity exceeds isize::MAX bytes
+        // (documented precondition of Vec/VecDeque/String/std HashMap::with_capacity and reserve): in a function that must
+        // not panic the argument has to be a literal or clamped by a `min`
+        if self.cfg.forbid_panic.contains(&self.f.key)
+            && (last == "with_capacity" || last == "with_capacity_in")
+            && segs.len() >= 2
+            && matches!(segs[segs.len() - 2].as_str(), "Vec" | "VecDeque" | "String" | "BinaryHeap" | "StdHashMap" | "StdHashSet")
+        {
+            let clamped = args.first().map(|a| { let t = toks(*a).replace(' ', ""); matches!(strip(a), syn::Expr::Lit(_)) || t.contains(".min(") || t.contains("min(") || t.contains("cautious") }).unwrap_or(true);
+            if !clamped {
+                let pv = self.ev("ev_forbidden_panic", vec![], c, line);
+                out.push(Sk::If { cond: Cond::Nondet, then: vec![pv], els: vec![], line });
+            }
+        }
         match full.as_str() {
             "drop" => {
                 if let Some(syn::Expr::Path(ap)) = args.first().map(|a| strip(a)) {
